@@ -120,6 +120,7 @@ type Node struct {
 	IP       net.IP
 	nDial    int
 	nUDP     int
+	nMcast   int
 	nextPort int
 	vanished bool
 }
@@ -290,8 +291,8 @@ type Conn struct {
 	nOut     uint64
 	inflight int
 	lastDel  time.Time
-	segSeq   int            // next segment number to assign (sender side)
-	nextSeg  int            // next segment number to deliver to the peer
+	segSeq   int             // next segment number to assign (sender side)
+	nextSeg  int             // next segment number to deliver to the peer
 	held     map[int]heldSeg // segments that fired before their predecessors
 
 	rbuf     []byte
@@ -880,6 +881,7 @@ type UDPSock struct {
 	q        []dgram
 	out      []outDgram
 	nOutTo   map[string]uint64 // per-destination datagram index
+	group    bool              // bound to a multicast group address (addr.IP is the group)
 	closed   bool
 	rdl, wdl time.Time
 	sig      chan struct{}
@@ -894,12 +896,23 @@ func (u *UDPSock) signal() {
 // ListenPacket is the ListenPacket seam of a node.
 func (nd *Node) ListenPacket(network, address string) (net.PacketConn, error) {
 	n := nd.net
-	_, port, err := splitHostPort(address)
+	host, port, err := splitHostPort(address)
 	if err != nil {
 		return nil, err
 	}
 	n.mu.Lock()
 	defer n.mu.Unlock()
+	if gip := net.ParseIP(host); gip != nil && gip.IsMulticast() && port != 0 {
+		// membership of a multicast group: any number of sockets, on any nodes, may bind the
+		// same group address (SO_REUSEADDR semantics); datagrams sent to it reach all of them
+		addr := &net.UDPAddr{IP: gip.To4(), Port: port}
+		nd.nMcast++
+		u := &UDPSock{net: n, ID: nd.Name + ":m" + strconv.Itoa(port) + "#" + strconv.Itoa(nd.nMcast), node: nd, addr: addr, sig: make(chan struct{}),
+			nOutTo: map[string]uint64{}, burst: map[string]int{}, group: true}
+		n.udps = append(n.udps, u)
+		n.stat("udp.mcast_join")
+		return u, nil
+	}
 	if port == 0 {
 		for {
 			nd.nextPort++
@@ -958,6 +971,9 @@ func (u *UDPSock) WriteTo(p []byte, addr net.Addr) (int, error) {
 	if !ok || ua == nil {
 		return 0, &net.OpError{Op: "write", Net: "udp", Addr: u.addr, Err: errors.New("invalid address")}
 	}
+	if u.group {
+		return u.writeFrom(p, ua, &net.UDPAddr{IP: u.node.IP, Port: u.addr.Port})
+	}
 	return u.writeFrom(p, ua, u.addr)
 }
 
@@ -998,7 +1014,9 @@ func (u *UDPSock) Close() error {
 		return &net.OpError{Op: "close", Net: "udp", Addr: u.addr, Err: net.ErrClosed}
 	}
 	u.closed = true
-	delete(n.udp, u.addr.String())
+	if !u.group {
+		delete(n.udp, u.addr.String())
+	}
 	u.signal()
 	n.mu.Unlock()
 	return nil
@@ -1101,6 +1119,10 @@ func (n *Net) collectUDP(u *UDPSock) {
 }
 
 func (n *Net) deliverDgram(src *UDPSock, from, to *net.UDPAddr, data []byte) {
+	if to.IP.IsMulticast() {
+		n.deliverGroup(src, from, to, data)
+		return
+	}
 	n.mu.Lock()
 	dst, ok := n.udp[to.String()]
 	if !ok || dst.closed || dst.node.vanished {
@@ -1119,6 +1141,40 @@ func (n *Net) deliverDgram(src *UDPSock, from, to *net.UDPAddr, data []byte) {
 	n.mu.Unlock()
 	if len(n.taps) > 0 {
 		n.tap(TapEvent{Kind: "udp.deliver", Node: dst.node.Name, Sock: dst.ID, From: from, To: to, Data: data})
+	}
+}
+
+// deliverGroup hands a datagram sent to a multicast group to every live member socket (the
+// sender's own membership included: multicast loop-back), in creation order.
+func (n *Net) deliverGroup(src *UDPSock, from, to *net.UDPAddr, data []byte) {
+	n.mu.Lock()
+	f := &net.UDPAddr{IP: from.IP, Port: from.Port, Zone: from.Zone}
+	if v4 := f.IP.To4(); v4 != nil {
+		f.IP = v4
+	}
+	var got []*UDPSock
+	for _, u := range n.udps {
+		if !u.group || u.closed || u.node.vanished || u.addr.Port != to.Port || !u.addr.IP.Equal(to.IP) {
+			continue
+		}
+		if _, ok := n.partUntil(src.node.Name, u.node.Name); ok {
+			n.stat("udp.partition_drop")
+			continue
+		}
+		u.q = append(u.q, dgram{data: data, from: f})
+		u.signal()
+		got = append(got, u)
+	}
+	if len(got) == 0 {
+		n.stat("udp.noport")
+	} else {
+		n.stat("udp.mcast_deliver")
+	}
+	n.mu.Unlock()
+	if len(n.taps) > 0 {
+		for _, u := range got {
+			n.tap(TapEvent{Kind: "udp.deliver", Node: u.node.Name, Sock: u.ID, From: from, To: to, Data: data})
+		}
 	}
 }
 
